@@ -129,7 +129,48 @@ def _case(draw):
             for sd in sides:
                 sd.append({"s": draw(st.sampled_from([1, -1])), "k": "var", "c": draw(_coef(cls)), "v": v})
     spell = [[draw(st.integers(0, 1000)) for _ in range(8)] for _ in range(3)]
-    return {"cls": cls, "rel": rel, "sides": sides, "spell": spell}
+    case = {"cls": cls, "rel": rel, "sides": sides, "spell": spell}
+    if draw(st.integers(0, 9)) == 0:
+        case["mpos"] = draw(st.integers(0, 1000))
+        case["malform"] = MALFORMATIONS[(case["mpos"] * 7 + spell[0][0]) % len(MALFORMATIONS)]
+    return case
+
+
+MALFORMATIONS = ["no-relation", "drop-close-paren", "drop-open-paren", "double-relation", "trailing-operator", "empty-side",
+                 "illegal-character", "drop-bar", "mixed-chain"]
+
+
+def malform(s, kind, pos, rel):
+    """turn a well-formed rendering into a string that is certainly outside the documented grammar; None if not applicable"""
+    import re
+    ops = [m for m in re.finditer(r"<=|>=|==|=", s)]
+    if kind == "no-relation":
+        return re.sub(r"<=|>=|==|=", " ", s)
+    if kind == "drop-close-paren":
+        idx = [i for i, ch in enumerate(s) if ch == ")"]
+        return (s[:idx[pos % len(idx)]] + s[idx[pos % len(idx)] + 1:]) if idx else None
+    if kind == "drop-open-paren":
+        idx = [i for i, ch in enumerate(s) if ch == "("]
+        return (s[:idx[pos % len(idx)]] + s[idx[pos % len(idx)] + 1:]) if idx else None
+    if kind == "drop-bar":
+        idx = [i for i, ch in enumerate(s) if ch == "|"]
+        return (s[:idx[pos % len(idx)]] + s[idx[pos % len(idx)] + 1:]) if idx else None
+    if kind == "double-relation":
+        m = ops[pos % len(ops)]
+        return s[:m.end()] + " " + m.group(0) + s[m.end():]
+    if kind == "trailing-operator":
+        return s + [" +", " -", " *", " <="][pos % 4]
+    if kind == "empty-side":
+        m = ops[0]
+        return s[m.start():] if pos % 2 else s[:ops[-1].end()]
+    if kind == "illegal-character":
+        k = pos % (len(s) + 1)
+        return s[:k] + ["$", ";", "#", "&", "^", "~", "@"][pos % 7] + s[k:]
+    if kind == "mixed-chain":
+        if rel not in ("<=", ">=") or not ops:
+            return None
+        return s + (" >= 1" if rel == "<=" else " <= 1")
+    return None
 
 
 def strategy(tier):
@@ -437,6 +478,22 @@ def run_case(case):
         viol, label = judge_string(case["string"])
         return {"viol": viol, "nontrivial": label == "ok-equivalent", "labels": ["raw-string", "outcome:" + label], "outcome": label, "note": case["string"]}
     labels = ["rel:" + case["rel"], "num:" + case["cls"]]
+    if case.get("malform"):
+        bad = malform(render(case, 0), case["malform"], case.get("mpos", 0), case["rel"])
+        labels.append("malformed:" + case["malform"])
+        if bad is None:
+            return {"viol": None, "nontrivial": False, "labels": labels + ["not-applicable"], "outcome": "skipped"}
+        try:
+            got = env.serializer.polyhedral_termlist_from_string(bad)
+        except (env.PolyhedralSyntaxException, ValueError):
+            return {"viol": None, "nontrivial": True, "labels": labels + ["rejected"], "outcome": "malformed-rejected", "note": bad}
+        except env.PolyhedralSyntaxConvexException:
+            return {"viol": None, "nontrivial": True, "labels": labels + ["rejected-convex"], "outcome": "malformed-rejected", "note": bad}
+        except Exception as e:  # noqa: B902
+            raise env.Undocumented(e, "polyhedral_termlist_from_string(%r)" % bad) from e
+        return {"viol": {"what": "malformed string %r (%s) was accepted and read as %s" % (bad, case["malform"], got),
+                         "sig": {"kind": "malformed-accepted", "malformation": case["malform"]}, "detail": {"string": bad}},
+                "nontrivial": True, "labels": labels, "outcome": "malformed-accepted", "note": bad}
     any_abs = any(has_abs(s) for s in case["sides"])
     labels.append("abs:%s" % any_abs)
     weights = abs_weights(case) if case["rel"] in ("<=", ">=") else []
